@@ -70,6 +70,11 @@ def main():
         jobs.append(("benign", n, p, ALL))
     bad = 0
     todo = [j for j in jobs if not (only and only not in j[1])]
+    if "--kinds" in sys.argv:       # e.g. --kinds seeds,mutants : re-run only those kinds (results of the others are kept)
+        kinds = sys.argv[sys.argv.index("--kinds") + 1].split(",")
+        todo = [j for j in todo if j[0] in kinds]
+        if os.path.exists(rp) and not only:
+            results = json.load(open(rp))
     njobs = int(sys.argv[sys.argv.index("--jobs") + 1]) if "--jobs" in sys.argv else 1
     done = {}
     if njobs > 1:
